@@ -532,3 +532,97 @@ def _id_spec(self, pos, trace):
 
 
 c.ens("data-starts-one-byte-after-ID-and-is-passed-on-unchanged", _id_spec)
+
+
+# -- the content parser reads a page's streams one after the other (C05: an operator sequence may be split over several streams; C18: inline data is taken
+#    from the same windows): fillfp opens the next stream exactly when none is open; fillbuf skips streams that have nothing (left) and ends with PSEOF -----------
+class _TwoStreams(T.Sort):
+    def fresh(self, ctx, name):
+        strms = [SObj(None, {"get_data": SymFn((lambda tag: lambda I: tag)("data-of-stream-%d" % k), "get_data"), "_tag": "data-of-stream-%d" % k}, "stream%d" % k) for k in range(2)]
+        return strms
+    def sample(self, rng):
+        return None
+    def from_model(self, ev, v):
+        return "two streams"
+
+
+_sv_id = stub("pdfminer.pdftypes:stream_value", ["x"]); _sv_id.result_fn = ("the-stream-itself", lambda x: x)
+_sv_id.note = "stream_value is the identity on a stream (its own contract is in C13)"
+for _fpstate in ("open", "none"):
+    c = contract("pdfminer.pdfinterp:PDFContentParser.fillfp#%s" % _fpstate, props=["C05", "C18"])
+    c.param("self", T.Obj("pdfminer.pdfinterp:PDFContentParser", streams=_TwoStreams(), istream=T.OneOf(0, 1, 2),
+                          fp=T.Const(None) if _fpstate == "none" else T.Obj(None, _open=T.Const(True))))
+    c.skip_cross = True
+    c.stubs = {"pdfminer.pdftypes:stream_value": _sv_id}
+    if _fpstate == "open":
+        # frame: nothing is modified (fp and istream included)
+        c.ens("an-open-stream-is-kept-no-stream-is-looked-at", lambda self, trace: len(trace) == 0 and self.fp is not None)
+    else:
+        c.mod("self.fp").mod("self.istream")
+        c.may_raise(PSm.PSEOF, lambda old: old.self.istream >= 2)
+        c.ens("the-next-stream-in-order-is-opened-on-its-decoded-data", lambda self, old: (
+            old.self.istream < 2 and self.istream == old.self.istream + 1 and self.fp._wrapped == "data-of-stream-%d" % old.self.istream))
+
+
+class _CPFiles(T.Sort):
+    """content parser with an optional open file and two more streams waiting, each with a symbolic number of bytes (possibly none)"""
+    def fresh(self, ctx, name):
+        files = [_FpAt().fresh(ctx, "file%d" % k) for k in range(3)]
+        for f in files[1:]:
+            ctx.assume(f.f["_pos"] == 0)
+        has_open = ctx.choose([True, False], "a-stream-is-open")
+        o = SObj(pi.PDFContentParser, {"fp": files[0] if has_open else None, "_waiting": files[1:] if has_open else files[1:], "_opened": [], "_files": files, "_has_open": has_open,
+                                       "buf": _Window().fresh(ctx, "buf"), "charpos": ctx.fresh_int("charpos"), "bufpos": ctx.fresh_int("bufpos"),
+                                       "BUFSIZ": ctx.fresh_int("BUFSIZ")}, name)
+        ctx.assume(z3.And(o.f["charpos"] >= 0, o.f["charpos"] <= o.f["buf"].n, o.f["BUFSIZ"] >= 1))
+        return o
+    def sample(self, rng):
+        return None
+    def from_model(self, ev, v):
+        return dict(open=v.f["_has_open"], left=[int(str(ev(f.f["_left"]))) for f in v.f["_files"]])
+
+
+def _fillfp_effect(I, bound):
+    from pyvc.symexec import SymRaise
+    s = bound["self"]
+    if s.f["fp"] is None:
+        if not s.f["_waiting"]:
+            raise SymRaise(PSm.PSEOF, "Unexpected EOF, file truncated?")
+        I.note_write(s, "fp")
+        s.f["fp"] = s.f["_waiting"].pop(0)
+        s.f["_opened"].append(s.f["fp"])
+
+
+_ffp = stub("pdfminer.pdfinterp:PDFContentParser.fillfp", ["self"]); _ffp.effect = _fillfp_effect
+_ffp.note = "fillfp as contracted above: keeps an open file, else opens the next waiting stream, else PSEOF"
+c = contract("pdfminer.pdfinterp:PDFContentParser.fillbuf", props=["C05", "C18"])
+c.param("self", _CPFiles())
+c.skip_cross = True
+c.inline = True
+c.stubs = {"pdfminer.pdfinterp:PDFContentParser.fillfp": _ffp}
+for f in ("buf", "charpos", "bufpos", "fp", "_waiting", "_opened", "_files[*]"):
+    c.mod("self." + f)
+
+
+def _cp_candidates(self):
+    """files in reading order from the entry state: the open one (if any), then the waiting ones"""
+    return [f for f in self._files if (self._has_open or f is not self._files[0])]
+
+
+def _cp_spec(self, old):
+    o = old.self
+    cands = _cp_candidates(o)
+    keep = And(eq(self.charpos, o.charpos), eq(self.bufpos, o.bufpos), eq(self.buf.n, o.buf.n), eq(self.buf.base, o.buf.base))
+    # first candidate with bytes left gives the window
+    def from_(k):
+        if k == len(cands):
+            return False              # no such file: PSEOF must have been raised instead
+        f = cands[k]
+        take = If(lt(f._left, o.BUFSIZ), f._left, o.BUFSIZ)
+        here = And(eq(self.charpos, 0), eq(self.bufpos, f._pos), eq(self.buf.base, f._pos), eq(self.buf.n, take))
+        return If(lt(0, f._left), here, from_(k + 1))
+    return If(lt(o.charpos, o.buf.n), keep, from_(0))
+
+
+c.may_raise(PSm.PSEOF, lambda old: And(eq(old.self.charpos, old.self.buf.n), *[eq(f._left, 0) for f in _cp_candidates(old.self)]))
+c.ens("window-kept-or-taken-from-the-first-stream-that-has-bytes-left", _cp_spec)
